@@ -584,6 +584,34 @@ package db
 //@ flag skip frame
 //@ ensures[until-ns] result0 == !ns
 
+// ---- C02/C04: the label-by-label map walk of the CDB reader ---------------------------------------------------------
+// cdbdriver.FindMap probes <mtype><name>"=" and then, one label shorter each time, <mtype><parent>"*". Claimed: a map
+// is returned only as the value of the last probe, and that probe's key is the two type bytes, the wire name from a
+// label boundary c of the name asked for to its end, and the exact-match element when c is the start of the name,
+// the wildcard element otherwise. (The same shape is claimed for the closest-key walk above, so the two readers apply
+// the same maps.) Reads of the database are abstracted (trusted stubs that record the probe).
+//@ func cdbdriver.FindStart
+//@ trusted
+//@ pure
+//@ func cdbdriver.FindNext
+//@ trusted
+//@ updates mapProbeKey, mapProbeVal
+//@ ensures mapProbeKey == key && mapProbeVal == result0
+//@ ensures err != nil ==> result0 == nil
+//@ spec mapkey(key slice, mtype slice, name slice, c int, e0 int, w0 int) bool = len(key) == len(name) - c + 3 && key[0] == mtype[0] && key[1] == mtype[1] && forall(j, 0, len(name) - c, key[2+j] == name[c+j]) && key[len(key)-1] == ite(c == 0, e0, w0)
+//@ func cdbdriver.FindMap
+//@ flag skip frame
+//@ updates mapProbeKey, mapProbeVal
+//@ ghost n int, offs seq, idx seq
+//@ requires wfname(domain, n, offs, idx) && len(mtype) == 2 && c != nil && context != nil
+//@ requires len(exactMatchKeyElement) == 1 && len(wildcardKeyElement) == 1 && !fresh(exactMatchKeyElement) && !fresh(wildcardKeyElement)
+//@ ensures[its-value] result0 != nil ==> result1 == nil && result0 == mapProbeVal
+//@ ensures[boundary] result0 != nil ==> 0 <= len(old(domain)) + 3 - len(mapProbeKey) && len(old(domain)) + 3 - len(mapProbeKey) < len(old(domain)) && offs[idx[len(old(domain)) + 3 - len(mapProbeKey)]] == len(old(domain)) + 3 - len(mapProbeKey) && 0 <= idx[len(old(domain)) + 3 - len(mapProbeKey)] && idx[len(old(domain)) + 3 - len(mapProbeKey)] <= n
+//@ ensures[key] result0 != nil ==> mapkey(mapProbeKey, mtype, old(domain), len(old(domain)) + 3 - len(mapProbeKey), exactMatchKeyElement[0], wildcardKeyElement[0])
+//@ loop 0 invariant[pos] ref(domain) == ref(old(domain)) && cur(domain, old(domain)) >= 0 && len(domain) == len(old(domain)) - cur(domain, old(domain)) && len(domain) >= 1 && 0 <= idx[cur(domain, old(domain))] && idx[cur(domain, old(domain))] <= n && offs[idx[cur(domain, old(domain))]] == cur(domain, old(domain))
+//@ loop 0 invariant[first] firstLoop == (cur(domain, old(domain)) == 0)
+//@ loop 0 invariant[k] fresh(k) && allocated(k) && len(k) >= 2 && k[0] == mtype[0] && k[1] == mtype[1]
+
 // ---- C03 / C10: the CDB driver's GetLocationByMap against the DBI contract -----------------------------------
 // An IPv4 client (IP.To4() != nil) is matched only against IPv4 subnets, which are stored v4-mapped with
 // prefix lengths 96..128: the returned prefix length is at least 96, whatever prefix-length set
